@@ -365,9 +365,9 @@ func main() {
 	for i, a := range corpus() {
 		jobs = append(jobs, job{a, options{arrai: c.Thorough() || i < 2, coq: true}, "corpus"})
 	}
-	n, nArrai := 260, 1
+	n, nArrai := 220, 1
 	if c.Thorough() {
-		n, nArrai = 4000, 28
+		n, nArrai = 3000, 28
 	}
 	if c.Search {
 		n *= 3
